@@ -14,6 +14,8 @@ CONF = {
     "C06": {"quick": 1600, "thorough": 60000, "batch": 100, "min_distinct": 20, "loops": [1, 2]},
     "C07": {"quick": 800, "thorough": 40000, "batch": 50, "min_distinct": 20, "loops": [1, 2], "env_alt": [{}, {"GODEBUG": "asynctimerchan=0"}]},
     "C08": {"quick": 480, "thorough": 20000, "batch": 30, "min_distinct": 20, "loops": [1, 2], "env_alt": [{}, {"GODEBUG": "asynctimerchan=0"}]},
+    "C10": {"quick": 480, "thorough": 20000, "batch": 30, "min_distinct": 8, "loops": [1, 1, 2]},
+    "C12": {"quick": 384, "thorough": 12800, "batch": 32, "min_distinct": 40, "loops": [1, 2]},
     "C09": {"quick": 1600, "thorough": 60000, "batch": 100, "min_distinct": 20, "loops": [1, 2]},
 }
 
